@@ -5,9 +5,30 @@ OPS = [
     {'op': 'prelude', 'text': '#[allow(unused_imports)] use vstd::prelude::*;\n'
                               '#[allow(unused_imports)] use crate::verif_ext::*;\n'
                               '#[allow(unused_imports)] use crate::verif_spec::*;\n'
-                              'verus! { broadcast use crate::verif_ext::group_ipp_seq; }'},
+                              'verus! { broadcast use {crate::verif_ext::group_ipp_seq, crate::verif_ext::group_ipp_text}; }'},
     {'op': 'wrap', 'items': ['struct IppRequestResponse', 'impl IppRequestResponse'],
-     'others': 'external_body', 'named': ['header', 'attributes', 'to_bytes', 'into_payload', 'into_read', 'into_async_read']},
+     'others': 'external_body', 'named': ['new', 'new_response', 'header', 'header_mut', 'attributes', 'attributes_mut',
+                                          'payload', 'payload_mut', 'to_bytes', 'into_payload', 'into_read', 'into_async_read']},
+    {'op': 'fn', 'path': 'IppRequestResponse::new', 'ret': 'r',
+     'spec': '''    ensures
+        r.shdr().version == version, r.shdr().operation_or_status == operation as u16, r.shdr().request_id == 1,
+        abs_groups(r.sattrs()) == base_groups(target_text(uri)),
+        payload_is_empty(r.spayload()),'''},
+    {'op': 'fn', 'path': 'IppRequestResponse::new_response', 'ret': 'r',
+     'spec': '''    ensures
+        r.shdr().version == version, r.shdr().operation_or_status == status as u16, r.shdr().request_id == id,
+        abs_groups(r.sattrs()) == base_groups(None),
+        payload_is_empty(r.spayload()),'''},
+    {'op': 'fn', 'path': 'IppRequestResponse::header_mut', 'ret': 'r',
+     'spec': '''    ensures *r == old(self).shdr(), *final(r) == final(self).shdr(),
+        final(self).sattrs() == old(self).sattrs(), final(self).spayload() == old(self).spayload(),'''},
+    {'op': 'fn', 'path': 'IppRequestResponse::attributes_mut', 'ret': 'r',
+     'spec': '''    ensures *r == old(self).sattrs(), *final(r) == final(self).sattrs(),
+        final(self).shdr() == old(self).shdr(), final(self).spayload() == old(self).spayload(),'''},
+    {'op': 'fn', 'path': 'IppRequestResponse::payload', 'ret': 'r', 'spec': '    ensures *r == self.spayload(),'},
+    {'op': 'fn', 'path': 'IppRequestResponse::payload_mut', 'ret': 'r',
+     'spec': '''    ensures *r == old(self).spayload(), *final(r) == final(self).spayload(),
+        final(self).shdr() == old(self).shdr(), final(self).sattrs() == old(self).sattrs(),'''},
     {'op': 'fn', 'path': 'IppRequestResponse::into_read', 'attrs': ['#[verifier::external]']},
     {'op': 'fn', 'path': 'IppRequestResponse::into_async_read', 'attrs': ['#[verifier::external]']},
     {'op': 'append', 'text': '''verus! {
